@@ -36,10 +36,20 @@ class OutputStream:
         self.offset += l
         self.column += l
 
+    def _sync(self, value: str):
+        "Keeps line and column in sync with line breaks of just pushed string"
+        lines = re_newline.split(value)
+        if len(lines) > 1:
+            self.line += len(lines) - 1
+            self.column = len(lines[-1])
+
     def push(self, text: str):
         "Pushes plain string into output stream without newline processing"
         process_text = self.options.get('output.text')
-        self._push(process_text(text, offset=self.offset, line=self.line, column=self.column))
+        value = process_text(text, offset=self.offset, line=self.line, column=self.column)
+        self._push(value)
+        # What text callback returns may span several lines
+        self._sync(value)
 
     def push_string(self, value: str):
         "Pushes given string with possible newline formatting into output"
@@ -56,9 +66,12 @@ class OutputStream:
         "Pushes new line into given output stream"
         base_indent = self.options.get('output.baseIndent')
         newline = self.options.get('output.newline')
+        line = self.line
         self.push('%s%s' % (newline, base_indent))
-        self.line += 1
-        self.column = len(base_indent)
+        if self.line == line:
+            # `output.newline` without actual line break still starts a new line
+            self.line += 1
+            self.column = len(base_indent)
         if indent:
             self.push_indent(self.level if indent is True else indent)
 
@@ -77,10 +90,7 @@ class OutputStream:
 
         # Field output is not processed, but it may span several lines (a placeholder
         # with line breaks): keep line and column in sync with actual output
-        lines = re_newline.split(value)
-        if len(lines) > 1:
-            self.line += len(lines) - 1
-            self.column = len(lines[-1])
+        self._sync(value)
 
 
 def tag_name(name: str, config: Config):
